@@ -315,6 +315,10 @@ impl<'a> Run<'a> {
 
         // Remove from running.
         self.running.write().remove(module.as_ref());
+        #[cfg(feature = "verif-hooks")]
+        crate::verif::point("rsync.between_running_and_updated", || {
+            module.to_string()
+        });
 
         // Insert into updated map no matter what.
         self.updated.write().insert(module.into_owned());
@@ -331,6 +335,8 @@ impl<'a> Run<'a> {
         uri: &uri::Rsync,
     ) -> Option<Bytes> {
         let path = self.collector.working_dir.uri_path(uri);
+        #[cfg(feature = "verif-hooks")]
+        crate::verif::point("rsync.load_file", || uri.to_string());
         match fs::File::open(&path) {
             Ok(mut file) => {
                 let mut data = Vec::new();
